@@ -203,6 +203,21 @@ def run(tier, seed):
             od = clirun.make_dir([], base=tmp)
             ex = os.path.join(tmp, 'exclude_%d.txt' % rnd)
             open(ex, 'w').write('BD8D0000\n')
+            # -a shows as many documents as there are files that -f decodes on their own (nothing is shown twice, nothing is made up)
+            singles = 0
+            for n_, b_ in dfiles:
+                so1, _, _ = clirun.run_main(['-f', os.path.join(d, n_), '-E'])
+                singles += bool(so1.strip())
+            soa, _, _ = clirun.run_main(['-p', d, '-a', '-E'])
+            try:
+                ndocs = len(json.loads(soa))
+            except Exception:
+                ndocs = -1
+            ck.case(key=('cli-dir-count', rnd))
+            ck.count('cli directory: documents of -a vs files decodable alone')
+            if ndocs != singles:
+                ck.fail('-a over a directory of malformed files shows %d documents although %d of the files decode on their own' % (ndocs, singles),
+                        {'op': 'cli-dir', 'argv': ['-a'], 'files': [(n, b.hex()) for n, b in dfiles], 'stdout': soa[:300]}, 'cli_dir_fabricated')
             for argv in (['-a'], ['-l'], ['-n'], ['-a', '-x'], ['-j', '-o', od], ['--plid', '0x50000001'], ['--src', 'B'], ['--src-exclude', ex],
                          ['--bmc-id', '1'], ['-i', '0x0C050004'], ['-l', '-H', '-O'], ['-n', '-S', 'Critical']):
                 for opt in (False, True):
